@@ -42,24 +42,30 @@ def rule_gates(ctx):
     R = "C02.GATE-AEAD"
     fi = ctx.index.func(RECLAYER + "_decryptAndUnseal")
     g = ctx.an.cfg(fi)
-    opens = [n for n in g.nodes if n.kind == "stmt" and ".open(nonce, buf, authData)" in norm(n.ast)]
-    tests = [t for t in g.nodes if t.kind == "test" and norm(t.expr) == "buf is None"]
-    eff = [t for t in tests if "T" in dead_edge_labels(g, t, _rets(g))]
-    if not opens:
+    opens = [n for n in g.nodes if n.kind == "stmt" and isinstance(n.ast, ast.Assign)
+             and any(call_name(c) == "open" and [norm(a) for a in c.args][:1] == ["nonce"] and len(c.args) == 3
+                     for c in calls_in(n.ast))]
+    if not opens or not isinstance(opens[0].ast.targets[0], ast.Name):
         raise AnalysisError("C02.GATE-AEAD: open() call not found")
+    res = opens[0].ast.targets[0].id            # the variable that receives open()'s result
+    oc = [c for c in calls_in(opens[0].ast) if call_name(c) == "open"][0]
+    ctx.check(R, norm(oc.args[2]) == "authData", fi.qname, "open() authenticates the additional data",
+              "the AEAD open() call does not receive the computed additional data", fi.loc(opens[0].ast))
+    tests = [t for t in g.nodes if t.kind == "test" and norm(t.expr) == "%s is None" % res]
+    eff = [t for t in tests if "T" in dead_edge_labels(g, t, _rets(g))]
     must_pass(ctx, R, fi, g, [g.entry], _rets(g), opens, "every returned plaintext went through AEAD open()",
               "_decryptAndUnseal can return data without calling the AEAD open()", start_after=False)
     must_pass(ctx, R, fi, g, opens, _rets(g), eff, "failed AEAD open() (None) raises TLSBadRecordMAC",
               "a record whose authentication tag does not verify (open() returned None) is returned as data")
-    okr = all(norm(r.ast) == "return buf" for r in _rets(g))
-    defs = [n for n in g.nodes if assigns(n, "buf") and n.line > opens[0].line]
+    okr = all(norm(r.ast) == "return %s" % res for r in _rets(g))
+    defs = [n for n in g.nodes if assigns(n, res) and n.line > opens[0].line]
     ctx.check(R, okr and not defs, fi.qname, "returns exactly what open() produced",
               "_decryptAndUnseal must return the output of open() unchanged", fi.loc())
     # encrypt-then-MAC
     R = "C02.GATE-ETM"
     fi = ctx.index.func(RECLAYER + "_macThenDecrypt")
     g = ctx.an.cfg(fi)
-    cut = {(t.id, "F") for t in g.nodes if t.kind == "test" and norm(t.expr) == "self._readState.macContext"}
+    cut = falsy_edges(g, "self._readState.macContext")
     cmp_ = [t for t in g.nodes if t.kind == "test" and norm(t.expr) == "not ct_compare_digest(macBytes, checkBytes)"]
     eff = [t for t in cmp_ if "T" in dead_edge_labels(g, t, _rets(g))]
     dec = [n for n in g.nodes if n.kind == "stmt" and "encContext.decrypt(" in norm(n.ast)]
@@ -94,7 +100,7 @@ def rule_gates(ctx):
     R = "C02.GATE-STREAM"
     fi = ctx.index.func(RECLAYER + "_decryptStreamThenMAC")
     g = ctx.an.cfg(fi)
-    cut = {(t.id, "F") for t in g.nodes if t.kind == "test" and norm(t.expr) == "self._readState.macContext"}
+    cut = falsy_edges(g, "self._readState.macContext")
     from .common import effective_labels
     rets = _rets(g)
     cmp_ = [t for t in g.nodes if t.kind == "test" and any(call_name(c) == "ct_compare_digest" for c in calls_in(t.expr))]
